@@ -231,7 +231,7 @@ func init() {
 	suffixes := []string{"", ".first()", ".last()", ".where($this.exists())", ".select($this)", ".toString()", ".distinct()", ".count()", ".tail()", ".take(1)", ".skip(1)", ".exists()", ".empty()", ".toDate()", ".toDateTime()"}
 	core.Register(&core.Check{
 		ID:          "C03",
-		Rule:        "programs: one per node kind plus every function of both tables at every accepted arity with specification-typed arguments, on the input, on an environment collection and on every one-item view (skip(k).take(1), tail^5) of a caller-owned collection %f of six FHIR primitive elements (" + fmt.Sprint(len(progs)) + " programs) x 5 hand-sized inputs (Patient, Patient with contained Observation, Observation, Bundle, Questionnaire) x environment shapes for %c and %d in {absent, System value, element aliasing a node of the input, empty collection with 4 spare slots, 3 items with 4 spare slots, 3 items exact} (full product) with %e = empty collection with spare capacity and %el = aliasing element; plus every name path of the schema-covering resource family x 15 continuations and 4 comparison forms (conversion of every primitive kind at every precision). Before/after: deterministic serialisation and presence fingerprint of every input resource and environment element, full backing array s[:cap] (spare slots pre-filled with a sentinel) and header of every collection passed in, AST dump of the compiled expression; every FHIR element in a result is an input's own node (pointer), an equal copy of a node inside an Any-packed contained resource, or the synthesised Reference.reference string; checked after successful and failing evaluations; non-trivial = distinct (program, input, environment shape, outcome)",
+		Rule:        "programs: one per node kind plus every function of both tables at every accepted arity with specification-typed arguments, on the input, on an environment collection and on every one-item view (skip(k).take(1), tail^5) of a caller-owned collection %f of six FHIR primitive elements (" + fmt.Sprint(len(progs)) + " programs) x 5 hand-sized inputs (Patient, Patient with contained Observation, Observation, Bundle, Questionnaire) x environment shapes for %c and %d in {absent, System value, element aliasing a node of the input, empty collection with 4 spare slots, 3 items with 4 spare slots, 3 items exact} (full product) with %e = empty collection with spare capacity and %el = aliasing element; plus every name path of the schema-covering resource family x 15 continuations and 4 comparison forms (conversion of every primitive kind at every precision). Before/after: deterministic serialisation and presence fingerprint of every input resource and environment element, full backing array s[:cap] (spare slots pre-filled with a sentinel) and header of every collection passed in, AST dump of the compiled expression; every FHIR element in a result is an input's own node (pointer), an equal copy of a node inside an Any-packed contained resource, or the synthesised Reference.reference string; checked after successful and failing evaluations; after the caller overwrote a returned collection and edited returned copies, the same evaluation gives the same result; non-trivial = distinct (program, input, environment shape, outcome)",
 		Assumptions: []string{"reflect/unsafe are used to observe slice headers and the private expression tree"},
 		Subs: func(tier string) []core.Sub {
 			names := lib.ResourceTypeNames()
@@ -372,6 +372,30 @@ func init() {
 										}
 										r.Fail(key("result-element-is-not-an-input-node"), core.W{"src": src, "input": inp.name, "item": lib.Show(m)})
 										break
+									}
+								}
+								// what the caller does with its result is its own business: after it overwrote the returned slots and
+								// edited returned copies (elements that are not nodes of the input), the same evaluation gives the same result
+								if res.Panic == nil && res.Err == nil && len(res.Coll) > 0 && shc == "absent" && shd == "absent" {
+									first := lib.ShowColl(res.Coll)
+									var envOwn []proto.Message
+									for _, v := range env {
+										switch x := v.(type) {
+										case proto.Message:
+											envOwn = append(envOwn, x)
+										case system.Collection:
+											for _, it := range x {
+												if m, ok := it.(proto.Message); ok {
+													envOwn = append(envOwn, m)
+												}
+											}
+										}
+									}
+									c04TamperOpt(false, in, res.Coll, envOwn...)
+									again := lib.EvalOpts(comp, in, lib.EnvOpts(env)...)
+									r.Eval()
+									if again.Panic == nil && again.Err == nil && lib.ShowColl(again.Coll) != first {
+										r.Fail(key("result-of-an-earlier-evaluation-edited-by-the-caller-shows-in-a-later-one"), core.W{"src": src, "input": inp.name, "first": core.Short(first, 200), "after_the_caller_edited_its_copy": core.Short(lib.ShowColl(again.Coll), 200)})
 									}
 								}
 							}
